@@ -1,5 +1,5 @@
 (* C20 - the lemmas Properties.v closes its theorems with. *)
-From VF.C20 Require Import Model Spec Lemmas ProofsWF ProofsWF2 ProofsWF3 ProofsCaps ProofsNonce ProofsNonce2 ProofsNonce3 ProofsNonce4 ProofsNonce5 ProofsTotal.
+From VF.C20 Require Import Model Spec Lemmas ProofsWF ProofsWF2 ProofsWF3 ProofsCaps ProofsNonce ProofsNonce2 ProofsNonce3 ProofsNonce4 ProofsNonce5 ProofsTotal ProofsLocals.
 From Coq Require Import Lia ZifyBool ZifyN ZifyNat.
 Local Open Scope N_scope.
 
@@ -156,3 +156,13 @@ Lemma accepted_is_pooled c g ops t local rep p' :
   add_tx (run (new_pool c g) ops) t local = (rep, E_ok, p') ->
   In t (all p') /\ (In t (held (pending p') (t_from t)) \/ In t (held (queue p') (t_from t))).
 Proof. intro H. eapply add_ok_is_pooled; eauto. apply ws_run, ws_new_pool. Qed.
+
+(* ---- locals -------------------------------------------------------------------- *)
+Lemma locals_all_histories c g ops a :
+  In a (locals (run (new_pool c g) ops)) ->
+  In a (cfg_locals c) \/
+  exists pre o post, ops = pre ++ o :: post /\ In a (local_accepts (run (new_pool c g) pre) o).
+Proof.
+  intro H. destruct (locals_only_from_accepted ops (new_pool c g) a H) as [H1|H1]; auto.
+  left. apply (locals_new_pool c g). exact H1.
+Qed.
